@@ -406,8 +406,21 @@ class Executor(ExprMixin, StmtMixin, Engine):
 
     def format_value(self, st, tmpl, pos, kw, node):
         t = z3.simplify(tmpl.e)
+        tail = None
         if not z3.is_string_value(t):
-            raise OutOfSubset('format on non-literal template', node)
+            raw = tmpl.e
+            if z3.is_app(raw) and raw.decl().kind() == z3.Z3_OP_SEQ_CONCAT and z3.is_string_value(z3.simplify(raw.arg(0))):
+                t = raw
+        if not z3.is_string_value(t) and z3.is_app(t) and t.decl().kind() == z3.Z3_OP_SEQ_CONCAT \
+                and z3.is_string_value(z3.simplify(t.arg(0))):
+            # literal ++ symbolic tail: format() copies the tail verbatim iff it holds no brace
+            rest = [t.arg(i) for i in range(1, t.num_args())]
+            tail = z3.Concat(*rest) if len(rest) > 1 else rest[0]
+            self.prove(st, z3.Not(z3.Or(z3.Contains(tail, z3.StringVal('{')), z3.Contains(tail, z3.StringVal('}')))),
+                       'noraise', node.lineno, 'format-template-tail-brace-free')
+            t = z3.simplify(t.arg(0))
+        if not z3.is_string_value(t):
+            raise OutOfSubset('format on non-literal template: %s' % str(t)[:120], node)
         import string as _string
         text = t.as_string()
         parts = []
@@ -427,6 +440,8 @@ class Executor(ExprMixin, StmtMixin, Engine):
             else:
                 v = kw[field]
             parts.append(self.to_str(st, v).e)
+        if tail is not None:
+            parts.append(tail)
         if not parts:
             return mk_str('')
         return mk_str(z3.Concat(*parts) if len(parts) > 1 else parts[0])
@@ -538,6 +553,16 @@ class Executor(ExprMixin, StmtMixin, Engine):
                     yield from self.call_contract(s1, c, [it], {}, node)
                 else:
                     raise OutOfSubset('next() on %s' % it.t, node)
+            return
+        if name == 'map' and len(node.args) == 2 and isinstance(node.args[0], ast.Lambda) \
+                and len(node.args[0].args.args) == 1 and not node.keywords:
+            # map(lambda x: e, xs) consumed as a sequence == [e for x in xs]
+            lam = node.args[0]
+            comp = ast.ListComp(elt=lam.body, generators=[ast.comprehension(
+                target=ast.Name(id=lam.args.args[0].arg, ctx=ast.Store()), iter=node.args[1], ifs=[], is_async=0)])
+            ast.copy_location(comp, node)
+            ast.fix_missing_locations(comp)
+            yield from self.ev(comp, st)
             return
         if name in ('any', 'all') and len(node.args) == 1 and isinstance(node.args[0], (ast.GeneratorExp, ast.ListComp)):
             yield from self.ev_anyall(name, node.args[0], node, st)
@@ -856,6 +881,11 @@ class Executor(ExprMixin, StmtMixin, Engine):
     def havoc_modifies(self, st, c, args, node):
         rebinds = {}
         bump = False
+        if c.options.get('restores'):
+            # net effect nil: the callee is PROVED (on its own body) to leave every location of its
+            # modifies list with the value it had on entry and it cannot raise, so a caller sees no
+            # change at all (used for balanced push/pop on context stacks)
+            return rebinds
         for mfy in c.modifies:
             if mfy.startswith('G:'):
                 key = mfy[2:]
@@ -1154,6 +1184,23 @@ class Executor(ExprMixin, StmtMixin, Engine):
                 self.prove(s1, self.spec(e, s1, extra, old), 'post', line, str(j), text=e,
                            stable_name='%s:post:%d' % (key.split(':')[1], j))
                 self.clause_props = None
+            if c.options.get('restores'):
+                # net-effect-nil contract: every location of the modifies list holds its entry value again
+                # (callers rely on this instead of a havoc), and no exceptional exit is declared
+                if c.raises or c.may_raise or c.allow_exc or any(not ('.' in mm and ':' not in mm) for mm in c.modifies):
+                    raise OutOfSubset('restores: only parameter fields, no declared exceptions')
+                for mm in c.modifies:
+                    now = self.spec_val(mm, s1, extra, old)
+                    was = self.spec_val('old(%s)' % mm, s1, extra, old)
+                    if isinstance(now.t, TList):
+                        j = z3.Int(fresh_name('rs'))
+                        goal = z3.And(list_len(now) == list_len(was),
+                                      z3.ForAll([j], z3.Implies(z3.And(0 <= j, j < list_len(now)),
+                                                                z3.Select(list_arr(now), j) == z3.Select(list_arr(was), j))))
+                    else:
+                        goal = now.e == was.e
+                    self.prove(s1, goal, 'post', line, 'restores:' + mm, text='%s == old(%s)' % (mm, mm),
+                               stable_name='%s:restores:%s' % (key.split(':')[1], mm))
             # frame for globals not in modifies: proved at each write; nothing to do here
         for pat in getattr(c, 'ghost_before', None) or {}:
             if 'before:' + pat not in self.ghost_hits:
